@@ -57,6 +57,7 @@ func (t *FnTrans) run() (err error) {
 		t.vals[p] = v
 		t.paramVals[name] = v
 		t.paramTypes[name] = T
+		t.notePtrTerm(n, T)
 		t.assume(t.rangeFact(n, T))
 		if i == 0 && fn.Signature.Recv() != nil {
 			t.recvName = name
@@ -128,6 +129,13 @@ func (t *FnTrans) run() (err error) {
 	}
 	if t.retCount == 0 && t.ct != nil && len(t.ct.Ensures) > 0 && t.ct.PanicsIf == nil {
 		t.fail("function never returns but has ensures clauses")
+	}
+	if t.ct != nil {
+		for _, g := range t.ct.Ghost {
+			if strings.HasPrefix(g.Arg, "before call ") && !t.ghostHit[g] {
+				t.fail("%s:%d: ghost statement '%s' matches no call site (fail closed)", g.File, g.Line, g.Arg)
+			}
+		}
 	}
 	return nil
 }
@@ -755,6 +763,17 @@ func (t *FnTrans) bind(v ssa.Value, term string) {
 	n := q(v.Name())
 	t.define(n, t.sortOf(v.Type()), term)
 	t.vals[v] = Val{S: n}
+	t.notePtrTerm(n, v.Type())
+}
+
+// notePtrTerm remembers SSA values that point to struct objects (instantiation candidates for
+// hypotheses quantified over objects).
+func (t *FnTrans) notePtrTerm(name string, T types.Type) {
+	if p, ok := t.resolve(T).Underlying().(*types.Pointer); ok {
+		if _, isS := t.resolve(p.Elem()).Underlying().(*types.Struct); isS {
+			t.ptrTerms = append(t.ptrTerms, ptrTerm{name, len(t.lines)})
+		}
+	}
 }
 
 // havocVal gives v an unconstrained value of its type (plus range facts).
@@ -804,6 +823,9 @@ func (t *FnTrans) instr(in ssa.Instruction) {
 			t.fail("extract %d of %s", x.Index, x.Tuple.Name())
 		}
 		t.vals[x] = tv.Tup[x.Index]
+		if n := tv.Tup[x.Index].S; n != "" && !strings.ContainsAny(n, " (") {
+			t.notePtrTerm(n, x.Type())
+		}
 	case *ssa.Alloc:
 		t.alloc(x)
 	case *ssa.FieldAddr:
@@ -818,7 +840,7 @@ func (t *FnTrans) instr(in ssa.Instruction) {
 		sv := t.val(x.X)
 		ST := t.resolve(x.X.Type())
 		st := ST.Underlying().(*types.Struct)
-		t.bind(x, app(q(t.sortOf(ST)+"."+st.Field(x.Field).Name()), sv.S))
+		t.bind(x, app(q(t.sortOf(ST)+"."+fieldAcc(st, x.Field)), sv.S))
 	case *ssa.IndexAddr:
 		t.indexAddr(x)
 	case *ssa.Index:
@@ -1129,8 +1151,20 @@ func (t *FnTrans) initLocks(T types.Type, prefix string, ref string) {
 			_ = save
 			continue
 		}
+		if n, ok := ft.(*types.Named); ok && n.Obj().Pkg() != nil && n.Obj().Pkg().Path() == "sync/atomic" {
+			// the value cell of an atomic embedded by value starts at its zero value
+			if ap, ok := t.atomicCell(Val{P: &Ptr{Kind: "field", Comp: c, Ref: ref, T: ft}}, "sync/atomic."+n.Obj().Name()+".Load"); ok {
+				t.comp(ap.Comp, "(Array Int "+t.sortOf(ap.T)+")")
+				t.cur.H[ap.Comp] = app("store", t.get(ap.Comp), ref, t.zero(ap.T))
+			}
+			continue
+		}
 		if _, isS := ft.Underlying().(*types.Struct); isS {
-			t.initLocks(ft, c, ref)
+			if ip := t.fieldPtr(&Ptr{Kind: "obj", Ref: ref, T: T}, i); ip.Kind == "obj" && prefix == "" {
+				t.initLocks(ft, "", ip.Ref) // interior object at its own address
+			} else {
+				t.initLocks(ft, c, ref)
+			}
 		}
 	}
 }
@@ -1588,28 +1622,54 @@ func (t *FnTrans) makeSlice(x *ssa.MakeSlice) {
 func (t *FnTrans) makeInterface(x *ssa.MakeInterface) {
 	T := t.resolve(x.X.Type())
 	v := t.val(x.X)
-	// boxing: fresh non-nil reference with dynamic type and payload
 	if t.sortOf(T) == "Tuple" {
 		t.fail("MakeInterface of tuple")
 	}
-	r := t.allocRef()
+	// interface values are canonical encodings of (dynamic type, value): box$T is injective, so two
+	// interface values are equal exactly when their dynamic types and values are (Go's == on interfaces)
+	term := ""
+	if v.S != "" || v.P != nil {
+		term = t.termOf(v, x.X)
+	} else {
+		term = t.zero(T)
+	}
 	n := q(x.Name())
-	t.define(n, "Int", r)
-	t.emit("(assert (= (dyn.type " + n + ") " + t.typeID(T) + "))")
-	if v.S != "" || v.P != nil {
-		t.emit("(assert (= " + t.unbox(n, T) + " " + t.termOf(v, x.X) + "))")
+	t.define(n, "Int", t.box(term, T))
+	t.vals[x] = Val{S: n, Fn: v.Fn, Bnd: v.Bnd, Box: term}
+}
+
+// box: the interface value holding `term` of static type T.
+func (t *FnTrans) box(term string, T types.Type) string {
+	T = t.resolve(T)
+	id := t.typeID(T)
+	srt := t.sortOf(T)
+	f := q("box$" + id)
+	if !t.declared[f] {
+		t.declareFun(f, []string{srt}, "Int")
+		ub := q("unbox$" + mangle(srt))
+		t.declareFun(ub, []string{"Int"}, srt)
+		t.emit(fmt.Sprintf("(assert (forall ((bx %s)) (! (and (= (dyn.type (%s bx)) %s) (= (%s (%s bx)) bx) (not (= (%s bx) 0))) :pattern ((%s bx)))))", srt, f, id, ub, f, f, f))
 	}
-	bx := ""
-	if v.S != "" || v.P != nil {
-		bx = t.termOf(v, x.X)
-	}
-	t.vals[x] = Val{S: n, Fn: v.Fn, Bnd: v.Bnd, Box: bx}
+	return app(f, term)
 }
 
 func (t *FnTrans) unbox(ref string, T types.Type) string {
 	s := t.sortOf(T)
 	f := q("unbox$" + mangle(s))
 	t.declareFun(f, []string{"Int"}, s)
+	// canonicity: an interface value with dynamic type T is the box of its payload (so that two
+	// interface values of that type are equal exactly when the payloads are: Go's == on interfaces)
+	if !strings.Contains(ref, "bv$") && !strings.Contains(ref, "tf$") {
+		R := t.resolve(T)
+		if types.Comparable(R) {
+			bx := t.box(app(f, ref), R)
+			key := "canon:" + bx
+			if !t.declared[key] {
+				t.declared[key] = true
+				t.emit("(assert " + implies(and(not(eq(ref, "0")), eq(app("dyn.type", ref), t.typeID(R))), eq(bx, ref)) + ")")
+			}
+		}
+	}
 	return app(f, ref)
 }
 
